@@ -28,6 +28,7 @@
 from __future__ import annotations
 
 import dataclasses
+import re
 from dataclasses import dataclass, field
 from typing import Optional, Dict, List, Any
 
@@ -40,6 +41,18 @@ def _decode_log_level(value: Any) -> Optional[str]:
     return None
   if value not in _LOG_LEVELS:
     raise ValueError(f"Invalid log_level '{value}'. Expect: 'INFO', 'WARN' or 'ERROR'.")
+  return value
+
+
+# general shape of RFC 5646 language tags (langtag, privateuse and grandfathered)
+_LANGUAGE_TAG_PATTERN = re.compile("^[A-Za-z]{1,8}(-[A-Za-z0-9]{1,8})*$")
+
+def _decode_document_lang(value: Any) -> Optional[str]:
+  """Decodes the document language: an RFC 5646 language tag (or the empty string, i.e. unspecified language in TTML)"""
+  if value is None:
+    return None
+  if not isinstance(value, str) or (value != "" and _LANGUAGE_TAG_PATTERN.match(value) is None):
+    raise ValueError(f"Invalid document_lang '{value}'. Expect: an RFC 5646 language tag.")
   return value
 
 
@@ -106,7 +119,7 @@ class GeneralConfiguration(ModuleConfiguration):
   """TT general configuration"""
   log_level: Optional[str] = field(default="INFO", metadata={"decoder": _decode_log_level})
   progress_bar: Optional[bool] = field(default=True, metadata={"decoder": decode_bool})
-  document_lang: Optional[str] = None
+  document_lang: Optional[str] = field(default=None, metadata={"decoder": _decode_document_lang})
 
   @classmethod
   def name(cls):
